@@ -89,17 +89,18 @@ func (t *SymbolTable) Index(s string) uint64 {
 }
 
 func (t *SymbolTable) Str(sym String) string {
-	if int(sym) < 1024 {
-		if int(sym) > len(DEFAULT_SYMBOLS)-1 {
+	// compare as unsigned: the index comes from untrusted bytes and may exceed the int range
+	if uint64(sym) < uint64(OFFSET) {
+		if uint64(sym) >= uint64(len(DEFAULT_SYMBOLS)) {
 			return fmt.Sprintf("<invalid symbol %d>", sym)
 		} else {
 			return DEFAULT_SYMBOLS[int(sym)]
 		}
 	}
-	if int(sym)-1024 > len(*t)-1 {
+	if uint64(sym)-uint64(OFFSET) >= uint64(len(*t)) {
 		return fmt.Sprintf("<invalid symbol %d>", sym)
 	}
-	return (*t)[int(sym)-1024]
+	return (*t)[int(uint64(sym)-uint64(OFFSET))]
 }
 
 func (t *SymbolTable) Var(v Variable) string {
